@@ -5,6 +5,7 @@ let channels : (string * ((string * string) list -> string)) list = [
   ("flags", Chan_flags.run_flags);
   ("jprops", Chan_flags.run_jprops);
   ("scc", Chan_scc.run);
+  ("scccli", Chan_scc.run_cli);
 ]
 
 let () =
